@@ -1,5 +1,6 @@
 import PP.Driver.Codec
 import PP.Model.Values
+import PP.Model.Config
 namespace PP
 open Sexp Pr
 
@@ -51,6 +52,24 @@ def decodeSettings : Sexp → Option Settings
   | .list [i, w, r, d, m, s] => do
     some { indent := ← int? i, width := ← int? w, ribbonWidth := ← int? r, depth := optNat (← int? d),
            maxSeqLen := optNat (← int? m), sortKeys := (← nat? s) == 1 }
+  | _ => none
+
+open Conf in
+/-- `(i w r d m s)` with each entry `unset`, an integer, or `none` (for depth / max_seq_len) -/
+def decodeExplicit : Sexp → Option Explicit
+  | .list [i, w, r, d, m, s] => do
+    let optInt : Sexp → Option (Option Int) := fun x => match x with
+      | .atom "unset" => some none
+      | y => (int? y).map some
+    let optOptNat : Sexp → Option (Option (Option Nat)) := fun x => match x with
+      | .atom "unset" => some none
+      | .atom "none" => some (some none)
+      | y => (nat? y).map fun n => some (some n)
+    let optBool : Sexp → Option (Option Bool) := fun x => match x with
+      | .atom "unset" => some none
+      | y => (nat? y).map fun n => some (n == 1)
+    some { indent := ← optInt i, width := ← optInt w, ribbonWidth := ← optInt r, depth := ← optOptNat d,
+           maxSeqLen := ← optOptNat m, sortKeys := ← optBool s }
   | _ => none
 
 end PP
